@@ -16,7 +16,8 @@ LEVEL = ("Mechanism level (necessary conditions over all code reachable from the
          "per-function count, or by a known finding; validation gates (rkyv check_bytes, size limits, verify) dominate the "
          "consumers; allocation sizes derive from in-memory lengths or constants; recursion cycles are enumerated; no "
          "unsafe outside the audited rows. Sufficiency of guards, memory use inside third-party crates and termination are "
-         "not decided.")
+         "not decided."
+         " Added by the build: every unwrap of Number::as_* is re-checked to sit under the matching is_* test; the type-derived CID reference obligations (every entry, unconditional, propagated) are evaluated as the premise of the `verified CID store` rows; positive controls for every matcher.")
 
 TABLE = os.path.join(facts.VERIF, "tables", "c01_sites.json")
 
